@@ -608,6 +608,33 @@ def n27_chunks_enumerate(text, fired):
     return text
 
 
+def n29_tail_sum(text, fired):
+    """N29: a function whose tail expression is `E.sum()` (Iterator::sum, a provided trait method without a vstd specification)
+    ends in `let vx_items: Vec<u64> = E.collect(); vx_sum_u64(vx_items)` instead.  Trusted reading (shim in lib/core.vxt):
+    the sum of an iterator's u64 items is the sum of the vector they collect into; an overflowing sum (debug: panic,
+    release: wraps) is the shim's precondition."""
+    m = mask(text)
+    mm = re.search(r'\.sum\(\)\s*\}\s*$', m)
+    if not mm:
+        return text
+    depth, start = 0, None
+    for i, ch in enumerate(m[:mm.start()]):
+        if ch in '([{':
+            depth += 1
+            if depth == 1 and ch == '{':
+                start = i + 1
+        elif ch in ')]}':
+            depth -= 1
+        elif ch == ';' and depth == 1:
+            start = i + 1
+    if start is None:
+        return text
+    expr = text[start:mm.start()].strip()
+    lead = text[start:mm.start()][:len(text[start:mm.start()]) - len(text[start:mm.start()].lstrip())]
+    fired['N29'] = fired.get('N29', 0) + 1
+    return text[:start] + lead + 'let vx_items: Vec<u64> = ' + expr + '.collect();\n        vx_sum_u64(vx_items)\n    }'
+
+
 def n13_hoist_iter_temp(text, fired):
     """for P in CALL(..).iter() { -> let vx_tmpN = CALL(..); for P in vx_tmpN.iter() {
     only when the iterated expression is a method call chain ending in `()`.iter()"""
@@ -1061,6 +1088,7 @@ class Gen:
             body2 = n20_anf_tail_chain(body2, fired, qname)
         body2 = n17_ref_into_iter(body2, fired)
         body2 = n27_chunks_enumerate(body2, fired)
+        body2 = n29_tail_sum(body2, fired)
         body2 = n13_hoist_iter_temp(body2, fired)
         # closure ordinals refer to the function as written: apply from the last to the first, so that giving one closure
         # its types does not renumber the ones before it
